@@ -398,6 +398,9 @@ class NPModel(NSModel):
             "size": B("np.size", lambda a: to_array(a).size),
             "array_equal": B("np.array_equal", lambda a, b: self.array_equal(a, b)),
             "allclose": B("np.allclose", lambda a, b, **kw: self.array_equal(a, b)),
+            # symbolic arrays of the model are real (A1); complex data appears only behind C contracts
+            "iscomplexobj": B("np.iscomplexobj", lambda a: bool(isinstance(a, np.ndarray) and a.dtype.kind == "c")),
+            "isrealobj": B("np.isrealobj", lambda a: not (isinstance(a, np.ndarray) and a.dtype.kind == "c")),
             "iinfo": B("np.iinfo", lambda dt: NSModel("iinfo", {"max": 2 ** 31 - 1 if dt is DT_I4 else 2 ** 63 - 1, "min": -2 ** 31 if dt is DT_I4 else -2 ** 63})),
             "finfo": B("np.finfo", lambda dt=None: NSModel("finfo", {"eps": Q(1, 2 ** 52), "tiny": Q(1, 2 ** 1022), "max": tm.var("dblmax")})),
             "errstate": B("np.errstate", lambda **kw: None),
